@@ -842,6 +842,8 @@ def make_assembly_with_new_mesh_conserves_atoms(ctx, ns, nd, pins=False):
         ctx.check_close("new block %d has the requested height" % j, b.getHeight(), hd[j], scale=H)
         ctx.check_close("new block %d top = mesh point" % j, b.p.ztop, tops[j], scale=H)
     area = src[0].getArea()
+    ctx.check_close("the new assembly has the volume of the source (same hexagon, same height)",
+                    sum(b.getVolume() for b in new), sum(b.getVolume() for b in src), scale=H * area)
     for nuc in ALLNUCS:
         got = atoms(new, nuc)
         if ctx.canary and nuc == "U235":
